@@ -36,6 +36,10 @@ CLAIMS["C01"] = ("partial: the per-record match table (12 cells), the covering t
     "decision tables over comparison-only inputs with opaque atoms, sibling cross-check of traversals, path-sensitive typestate of the validation loop")
 CLAIMS["C02"] = ("partial: record identity at element and node level (decision tables), the complete return-code/effect table of add and remove incl. the root pointer per address family, removal by source (own-source filter, same slot and same node re-examined, both children, both families, error propagation), payload-triple discipline of the node swaps, and exactly-once enumeration with all five fields; that trie_insert/trie_remove keep the path invariant for every history is NOT decided",
     "decision tables with forked callee results, loop-structure matching, straight-line content simulation of node swaps")
+CLAIMS["C11"] = ("partial: that the key handed to the signature check depends on the segment's AS (today violated: recorded known finding F5), that VALID can only originate from a successful signature check of the current hop, the digest layout against the RFC 8205 table (order, widths, byte order, start segment), agreement of size formula / per-hop offset / writer, the full precondition table and the verdict mapping incl. ECDSA_verify wiring and hop-loop control; ECDSA, SHA-256 and DER parsing are NOT decided",
+    "value-flow dependence, path-sensitive typestate of the hop loop, call-sequence extraction against an RFC table, decision cells")
+CLAIMS["C12"] = ("partial (thin on the cryptography): the signing digest layout against the RFC 8205 table (which is the independent implementation in table form), size/writer agreement, the precondition table of the signing entry point and the wiring of hashing and ECDSA_sign (whole stream, 32-byte digest, buffer sized by ECDSA_size, sig_len from the out-parameter, success only after signing); validity of the produced signature under an independent verifier is NOT decided",
+    "call-sequence extraction against an RFC table, decision cells, value-flow of call arguments")
 NA = {}
 def main():
     props = [json.loads(l) for l in open(os.path.join(HERE, "properties.jsonl"))]
